@@ -178,6 +178,12 @@ impl KeyReadWrite {
 /// The update worker pool.
 pub struct UpdatePool {
     worker_tp: ThreadPool,
+    // Warm-up tasks get threads of their own: a warm-up task lives as long as its session, so on the
+    // worker pool the warm-ups of the live sessions would starve each other and the update workers
+    // (with as many live sessions as workers, no session could be finished).
+    warm_up_tp: ThreadPool,
+    // The number of warm-up tasks which have not ended yet.
+    live_warm_ups: Arc<Mutex<usize>>,
     do_warm_up: bool,
 }
 
@@ -193,6 +199,11 @@ impl UpdatePool {
                 .num_threads(num_workers)
                 .thread_name("nomt-commit".to_string())
                 .build(),
+            warm_up_tp: threadpool::Builder::new()
+                .num_threads(1)
+                .thread_name("nomt-warm-up".to_string())
+                .build(),
+            live_warm_ups: Arc::new(Mutex::new(0)),
             do_warm_up,
         }
     }
@@ -203,6 +214,7 @@ impl UpdatePool {
     /// Must not be called while a session is alive: its warm-up task runs until the session ends.
     pub fn wait_idle(&self) {
         self.worker_tp.join();
+        self.warm_up_tp.join();
     }
 
     /// Create a `Updater` that uses the underlying pool.
@@ -228,7 +240,19 @@ impl UpdatePool {
         };
 
         let warm_up = if self.do_warm_up {
-            Some(spawn_warm_up::<H>(&self.worker_tp, params))
+            {
+                // one thread per live warm-up task.
+                let mut live_warm_ups = self.live_warm_ups.lock();
+                *live_warm_ups += 1;
+                if *live_warm_ups > self.warm_up_tp.max_count() {
+                    self.warm_up_tp.clone().set_num_threads(*live_warm_ups);
+                }
+            }
+            Some(spawn_warm_up::<H>(
+                &self.warm_up_tp,
+                self.live_warm_ups.clone(),
+                params,
+            ))
         } else {
             None
         };
@@ -566,6 +590,7 @@ struct WarmUpHandle {
 
 fn spawn_warm_up<H: HashAlgorithm>(
     worker_tp: &ThreadPool,
+    live_warm_ups: Arc<Mutex<usize>>,
     params: worker::WarmUpParams,
 ) -> WarmUpHandle {
     let (warmup_tx, warmup_rx) = channel::unbounded();
@@ -574,7 +599,11 @@ fn spawn_warm_up<H: HashAlgorithm>(
 
     spawn_task(
         &worker_tp,
-        move || worker::run_warm_up::<H>(params, warmup_rx, finish_rx),
+        move || {
+            let output = worker::run_warm_up::<H>(params, warmup_rx, finish_rx);
+            *live_warm_ups.lock() -= 1;
+            output
+        },
         output_tx,
     );
 
